@@ -84,55 +84,45 @@ class Intrinsics:
             return z3.And([bl(c) for c in cs])
         return bv(a, a.size() if not type(a) is int else b.size()) == bv(b, a.size() if not type(a) is int else b.size())
 
+    def _decide(self, eng, st, c):
+        """True / False when the path condition decides c, else None"""
+        c = simp(c)
+        if type(c) is bool:
+            return c
+        if eng.check(st, c) == "unsat":
+            return False
+        if eng.check(st, z3.Not(c)) == "unsat":
+            return True
+        return None
+
     def map_lookup(self, eng, st, m, key, mt):
+        zero = eng.p.zero(mt["elem"]) if mt else None
         if m.obj is None:
-            zt = eng.p.zero(mt["elem"]) if mt else None
-            return zt, False
-        ents = st.mem[m.obj]
-        found = False
-        val = eng.p.zero(mt["elem"]) if mt else None
-        # later entries shadow earlier ones: build ite from oldest to newest
-        res_val, res_ok = val, False
-        for k, v in ents:
-            eq = self._key_eq(eng, st, k, key)
+            return zero, False
+        res_val, res_ok = zero, False
+        for k, v in st.mem[m.obj]:
+            eq = self._decide(eng, st, self._key_eq(eng, st, k, key))
             if eq is True:
-                res_val, res_ok = v, True
-            elif eq is False:
+                return v, True
+            if eq is False:
                 continue
-            else:
-                if res_val is None:
-                    res_val = v
-                res_val = eng.ite_val(eq, v, res_val, None) if res_val is not v else v
-                res_ok = z3.Or(eq, bl(res_ok)) if res_ok is not True else True
+            c = simp(self._key_eq(eng, st, k, key))
+            res_val = v if res_val is None else eng.ite_val(c, v, res_val, None)
+            res_ok = z3.Or(c, bl(res_ok))
         return res_val, res_ok
 
     def map_update(self, eng, st, m, key, val):
-        ents = st.mem[m.obj]
-        # requirement: keys symbolic-distinctness is resolved by forking in harness stubs; here we need a definite answer
         out = []
         replaced = False
-        for k, v in ents:
-            eq = self._key_eq(eng, st, k, key)
+        for k, v in st.mem[m.obj]:
+            eq = self._decide(eng, st, self._key_eq(eng, st, k, key))
             if eq is True:
                 out.append((k, val))
                 replaced = True
             elif eq is False:
                 out.append((k, v))
             else:
-                # symbolic: decide by forking is not available here; use solver for uniqueness
-                r1 = eng.check(st, eq)
-                if r1 == "unsat":
-                    out.append((k, v))
-                    continue
-                r2 = eng.check(st, z3.Not(eq))
-                if r2 == "unsat":
-                    out.append((k, val))
-                    replaced = True
-                    continue
-                # genuinely ambiguous: keep a conditional entry
-                out.append((k, eng.ite_val(eq, val, v, None)))
-                # and the new key is only present if not equal to any: approximated by requiring harness to avoid this
-                raise EngineError("map update with ambiguous symbolic key equality (harness must case-split keys)")
+                raise EngineError("map update with ambiguous symbolic key equality (harness must make keys distinct or case-split)")
         if not replaced:
             out.append((key, val))
         st.mem[m.obj] = tuple(out)
@@ -142,13 +132,13 @@ class Intrinsics:
             return
         out = []
         for k, v in st.mem[m.obj]:
-            eq = self._key_eq(eng, st, k, key)
+            eq = self._decide(eng, st, self._key_eq(eng, st, k, key))
             if eq is True:
                 continue
             if eq is False:
                 out.append((k, v))
                 continue
-            raise EngineError("map delete with symbolic key equality")
+            raise EngineError("map delete with ambiguous symbolic key equality")
         st.mem[m.obj] = tuple(out)
 
     def map_len(self, eng, st, m):
@@ -309,6 +299,10 @@ class Intrinsics:
              "(%s.Type).String" % PKG)
         def fmt_opaque(eng, st, fr, args, ins):
             return eng.const_string(st, list(b"<str>"))
+
+        @reg(H + "floatToString")
+        def float_to_string(eng, st, fr, args, ins):
+            return (eng.const_string(st, list(b"<float>")), NILIFACE)
 
         # ---- math ------------------------------------------------------------------------
         @reg("math.Float64bits", "math.Float64frombits", "math.Float32bits", "math.Float32frombits")
